@@ -90,6 +90,20 @@ func genPeers(r *Rng, tier string, p *Plan) {
 	p.SortOps()
 }
 
+// subscribeHookPeers is what the sharder sees as Peers in the with_sharder runs.
+type subscribeHookPeers struct {
+	peer.Peers
+	hook func()
+}
+
+func (s *subscribeHookPeers) RegisterUpdatedPeersCallback(cb func()) {
+	if h := s.hook; h != nil {
+		s.hook = nil
+		h()
+	}
+	s.Peers.RegisterUpdatedPeersCallback(cb)
+}
+
 type peerNode struct {
 	idx     int
 	addr    string
@@ -154,7 +168,25 @@ func runPeers(t *testing.T, p *Plan) *Outcome {
 				return
 			}
 			if p.On("with_sharder") {
-				nd.sh = &sharder.DeterministicSharder{Config: cfg, Logger: &logger.NullLogger{}, Peers: nd.p}
+				// the sharder reaches the peers through a double that can let another
+				// node's registration arrive in the middle of the sharder's Start (at the
+				// moment it subscribes to membership changes)
+				sp := &subscribeHookPeers{Peers: nd.p}
+				for _, o := range nodes {
+					if o != nd && o.running && H(p.Seed, "join-during-start", nd.idx, nd.inc)%2 == 0 {
+						o := o
+						sp.hook = func() {
+							msg := fmt.Sprintf("R%s,%08x", o.addr, uint32(H(p.Seed, "inst", o.idx, o.inc)))
+							ids, dones := bus.DeliverNow(fmt.Sprintf("n%d", o.idx), nd.ep.FormatTopic("peers"), msg)
+							for i := range ids {
+								awaitGoroutine(ids[i], dones[i])
+							}
+							out.Probe("registration_arrived_while_sharder_started")
+						}
+						break
+					}
+				}
+				nd.sh = &sharder.DeterministicSharder{Config: cfg, Logger: &logger.NullLogger{}, Peers: sp}
 				if err := nd.sh.Start(); err != nil {
 					out.Harness = "sharder start: " + err.Error()
 					return
